@@ -67,8 +67,12 @@ const (
 	caseWatchdog    = 90 * time.Second
 )
 
+// CurrentTier is the tier of the run in progress (drivers whose cases enumerate sub-spaces read it).
+var CurrentTier = "quick"
+
 // RunWorker is the body of `yaemc worker`.
 func RunWorker(o WorkerOpts) int {
+	CurrentTier = o.Tier
 	d := Lookup(o.Prop)
 	if d == nil {
 		fmt.Fprintf(os.Stderr, "unknown property %s\n", o.Prop)
@@ -237,6 +241,9 @@ func RunReplay(path string) int {
 	if d == nil {
 		fmt.Fprintf(os.Stderr, "unknown property %s\n", rf.Property)
 		return 2
+	}
+	if rf.Tier != "" {
+		CurrentTier = rf.Tier
 	}
 	r := d.Run(rf.Case)
 	out := map[string]interface{}{"property": rf.Property, "outcome": r.Outcome, "violations": r.Violations}
